@@ -131,7 +131,9 @@ class Interp:
                 c.world.funcref(v)
             return
         if isinstance(obj, SFunc) and attr == '__name__':
-            return   # resulting_function.__name__ = name : handled by the template model
+            # fn.__name__ = name
+            c.assume(name_of(self.w.funcref(obj)) == c.to_ref(v))
+            return
         raise Unsupported('attribute store on %r' % (obj,))
 
     def st_AugAssign(self, st):
@@ -192,7 +194,11 @@ class Interp:
         for d in reversed(st.decorator_list):
             if isinstance(d, ast.Call) and isinstance(d.func, ast.Name) and d.func.id == 'wraps':
                 fn.wrapped = self.eval(d.args[0])
-                self.w.dropped.add('functools.wraps (identity on behaviour)')
+                self.w.dropped.add('functools.wraps (identity on behaviour; copies __name__)')
+                if isinstance(fn.wrapped, SFunc) and self.c.frames and len(self.c.frames) > 1:
+                    self.c.assumptions.append(name_of(self.w.funcref(fn)) == name_of(self.w.funcref(fn.wrapped)))
+                elif isinstance(fn.wrapped, SRef):
+                    self.c.assumptions.append(name_of(self.w.funcref(fn)) == name_of(fn.wrapped.e))
                 continue
             if isinstance(d, ast.Name) and d.id in ('staticmethod', 'contextmanager'):
                 setattr(fn, d.id, True)
@@ -751,6 +757,10 @@ class Interp:
             fi = self.src.find_method(name, attr)
             if fi is not None:
                 return self.w_method(fi)
+            for cn in self.src.mro(name):
+                ci = self.src.classes.get(cn)
+                if ci and attr in ci.nested_classes:
+                    return SClass(attr)
             v, owner = self.src.find_class_attr(name, attr)
             if v is not None:
                 if isinstance(v, (ast.List, ast.Dict, ast.Set)):
